@@ -315,7 +315,7 @@ def check_bm(paths, vis, head, n, sc, sb, m, dg, NB):
   syms = [M, L]
   probs = []
   for kind, val, s, since, v2 in paths:
-    if kind != "fall":
+    if kind not in ("fall", "continue"):
       probs.append("loop left by %s" % kind)
       continue
     facts = []
